@@ -10,7 +10,7 @@
      part 5  acquire_claim as coded = Engine.acquire_claim. *)
 From Coq Require Import List Bool Arith ZArith Lia.
 Import ListNotations.
-From Stab.model Require Import Base StatusM Readiness StageStat Engine Conc.
+From Stab.model Require Import Base StatusM Readiness StageStat Conc.
 From Stab.gen Require Import Gen_Config Gen_Guards Gen_Occ Gen_Conc.
 
 (* ------------------------------------------------------------------------------------------ *)
